@@ -1,6 +1,6 @@
 """Contracts for pyx12/validation.py (C13; callee contracts for C15)."""
 from pyvc.contract import contract, set_scope, Const
-from pyvc.types import *
+from pyvc.tys import *
 from specs.types import *
 from specs.prim import *
 
